@@ -16,13 +16,13 @@ from .. import gen as G
 PID = 'C13'
 RULE = ('cases = random sequences (<= 6 quick / <= 10 thorough steps) over a pool of MatrixArrays of rank 1-5, length 1-64 with random '
         'space flags; operators + - * / (out-of-place and in-place) with operand kinds MatrixArray / same object / length-1 NonSpatial '
-        'MatrixArray / scalar / ndarray, dot, @, @=, invert, get_copy, pair get/set by type names incl. unknown names, plus '
+        'MatrixArray / scalar / ndarray, dot, @, @=, invert, get_copy, pair get/set by type names incl. unknown names, IdentityMatrixArray independence histories, plus '
         'PRISM.cost evaluations under the same contracts; non-trivial = sequence executed >= 3 contract-checked calls; '
         'distinct = distinct (rank,length,step list) digests')
 ASSUMPTIONS = ['numpy elementwise arithmetic, @ and np.linalg.inv applied matrix by matrix are the reference',
                'well-conditioned data (cond < 1e6) for inversion checks']
-MINIMA = {'quick': {'ma.__add__': 100, 'ma.__isub__': 100, 'ma.dot': 100, 'ma.invert': 50, 'ma.__setitem__': 100, 'space_mix_refused': 50, 'inplace_vs_outofplace': 100},
-          'thorough': {'ma.__add__': 3000, 'ma.__isub__': 3000, 'ma.dot': 3000, 'ma.invert': 1000, 'ma.__setitem__': 3000, 'space_mix_refused': 1000, 'inplace_vs_outofplace': 3000}}
+MINIMA = {'quick': {'ma.__add__': 100, 'ma.__isub__': 100, 'ma.dot': 100, 'ma.invert': 50, 'ma.__setitem__': 100, 'space_mix_refused': 50, 'inplace_vs_outofplace': 100, 'identity.case': 40},
+          'thorough': {'ma.__add__': 3000, 'ma.__isub__': 3000, 'ma.dot': 3000, 'ma.invert': 1000, 'ma.__setitem__': 3000, 'space_mix_refused': 1000, 'inplace_vs_outofplace': 3000, 'identity.case': 2000}}
 SHARDS = {'quick': 4, 'thorough': 16}
 TIME_BUDGET = {'quick': 40, 'thorough': 240}
 
@@ -39,6 +39,9 @@ def cases(ctx):
     n = ctx.budget(1600, 100000)
     maxsteps = 10 if ctx.thorough() else 6
     for it in range(n):
+        if it % 20 == 7:
+            yield {'kind': 'identity', 'rank': int(rng.integers(1, 6)), 'L': int(rng.choice([1, 2, 5, 16, 64])), 'seed': int(rng.integers(0, 2 ** 31))}
+            continue
         if it % 40 == 39:
             yield {'kind': 'cost', 'seed': int(rng.integers(0, 2 ** 31)), 'rank': int(rng.integers(1, 4))}
             continue
@@ -75,9 +78,72 @@ def run_cost(ctx, case):
     ctx.nontrivial(['cost', case['seed']])
 
 
+def is_identity(m, n, L):
+    d = np.asarray(m.data)
+    return d.shape == (L, n, n) and np.array_equal(d, np.broadcast_to(np.eye(n), (L, n, n)))
+
+
+def run_identity(ctx, case):
+    """IdentityMatrixArray is a MatrixArray filled with identity matrices: every instance is independent of every other"""
+    rng = np.random.default_rng(case['seed'])
+    n, L = int(case['rank']), int(case['L'])
+    types = list('ABCDE')[:n]
+    sp = SPACES[int(rng.integers(0, 3))]
+    I1 = IdentityMatrixArray(length=L, rank=n, space=sp, types=types)
+    I2 = IdentityMatrixArray(length=L, rank=n, space=sp, types=types)
+    ctx.hook('identity.case')
+    for name, I in (('first', I1), ('second', I2)):
+        if not is_identity(I, n, L):
+            ctx.violation('ma:identity-not-identity', 'a freshly constructed IdentityMatrixArray(rank=%d,length=%d) is not the identity (%s instance)' % (n, L, name))
+            return
+    A = mk(rng, L, n, types, sp)
+    for form, res in (('A.dot(I)', A.dot(I1)), ('I.dot(A)', I1.dot(A)), ('A @ I', A @ I1)):
+        if not np.allclose(res.data, A.data, rtol=1e-14, atol=0):
+            ctx.violation('ma:identity-dot', '%s != A' % form)
+            return
+    steps = []
+    for step in range(int(rng.integers(1, 5))):
+        op = str(rng.choice(['iadd', 'isub', 'imul', 'itruediv', 'setitem', 'setMatrix', 'sub_out', 'invert_in', 'dot_in']))
+        steps.append(op)
+        with np.errstate(all='ignore'):
+            if op == 'iadd':
+                I1 += float(rng.uniform(0.5, 2))
+            elif op == 'isub':
+                I1 -= A
+            elif op == 'imul':
+                I1 *= float(rng.uniform(2, 3))
+            elif op == 'itruediv':
+                I1 /= float(rng.uniform(2, 3))
+            elif op == 'setitem':
+                a, b = [str(t) for t in rng.choice(types, 2)]
+                I1[a, b] = rng.normal(size=L)
+            elif op == 'setMatrix':
+                I1.setMatrix(int(rng.integers(0, L)), rng.normal(size=(n, n)))
+            elif op == 'sub_out':
+                _ = I1 - A
+            elif op == 'invert_in':
+                I1.data = wellcond(rng, L, n)
+                I1.invert(inplace=True)
+            else:
+                I1.dot(A, inplace=True)
+        I3 = IdentityMatrixArray(length=L, rank=n, space=sp, types=types)
+        if not is_identity(I2, n, L):
+            ctx.violation('ma:identity-instances-share-data', 'after %s on one IdentityMatrixArray a DIFFERENT instance of the same shape is no longer the identity' % steps)
+            return
+        if not is_identity(I3, n, L):
+            ctx.violation('ma:identity-instances-share-data', 'after %s on one IdentityMatrixArray a newly constructed one is not the identity' % steps)
+            return
+        if np.shares_memory(I3.data, I2.data) or np.shares_memory(I1.data, I2.data):
+            ctx.violation('ma:identity-instances-share-data', 'two IdentityMatrixArray instances share memory')
+            return
+    ctx.nontrivial(['identity', n, L, steps])
+
+
 def run_case(ctx, case):
     if case['kind'] == 'cost':
         return run_cost(ctx, case)
+    if case['kind'] == 'identity':
+        return run_identity(ctx, case)
     rng = np.random.default_rng(case['seed'])
     n, L = int(case['rank']), int(case['L'])
     types = list('ABCDE')[:n]
